@@ -29,9 +29,12 @@ def make_test(cfg):
     from shangrla.core.NonnegMean import NonnegMean
 
     kw = dict(cfg["kw"])
+    u = cfg["u"]
+    if float(u).is_integer() and (cfg["N"] or 0) % 2 == 1:
+        u = int(u)   # the audit code constructs its tests with the integer 1 (and an integer upper bound is as good as a float)
     args = {
         "test": getattr(NonnegMean, cfg["test"]),
-        "u": cfg["u"],
+        "u": u,
         "N": np.inf if cfg["N"] is None else int(cfg["N"]),
         "t": cfg["t"],
         "random_order": cfg.get("random_order", True),
